@@ -34,7 +34,11 @@ CFG = {
     "C02": dict(
         algos=ELIM,
         # heteroscedastic Auer with empirical widths: see C03 (seeded change C02-b was missed without it)
-        extra=[({"algos": ["Auer"], "envs": ["real_sim", "noise_adv"]}, 900, 20000)],
+        extra=[
+            ({"algos": ["Auer"], "envs": ["real_sim", "noise_adv"]}, 500, 10000),
+            # 12-40 designs: set iteration order is no longer sorted order (see seeded/C07-b)
+            ({"algos": ["Auer"], "envs": ["real_sim", "noise_adv"], "features": {"big_K": True}}, 400, 10000),
+        ],
         props=["C02"],
         quick=260,
         thorough=9000,
@@ -45,7 +49,11 @@ CFG = {
         algos=ELIM + ["Auer"],
         # Auer has no solver: a dedicated heteroscedastic batch is nearly free and is where
         # per-design widths differ (the positional-width defect needed ~1 in 200 such runs)
-        extra=[({"algos": ["Auer"], "envs": ["real_sim", "noise_adv"]}, 900, 20000)],
+        extra=[
+            ({"algos": ["Auer"], "envs": ["real_sim", "noise_adv"]}, 500, 10000),
+            # 12-40 designs: set iteration order is no longer sorted order (see seeded/C07-b)
+            ({"algos": ["Auer"], "envs": ["real_sim", "noise_adv"], "features": {"big_K": True}}, 400, 10000),
+        ],
         props=["C03"],
         quick=260,
         thorough=9000,
@@ -71,6 +79,7 @@ CFG = {
         quick=320,
         thorough=12000,
         features={"big_batch": True, "kf_ne_m": True, "provoke_open_findings": True},
+        extra=[({"algos": ["PaVeBa", "Auer", "Auer", "NaiveElimination"], "features": {"big_K": True}}, 80, 3000)],
         need=dict(decided=("C06", 500)),
         title="monotone, clean termination, no crash, exact accounting",
     ),
